@@ -195,6 +195,11 @@ def check_C05(ctx):
     n = 500 if ctx.quick else 6000
     scs, meta = k3_batch(ctx, "c05", n)
     run_k3(ctx, "K3/K4 propositional engine", scs, ["c05_monotone"])
+    scs2, meta2 = gen_prop.gen_k3_conflict(ctx.rng("c05conflict"), 300 if ctx.quick else 4000)
+    for sc in scs2:
+        sc.append([])
+    run_k3(ctx, "K3 resolved formulae over graded operands, node-level downward first", scs2, ["c05_monotone"])
+    ctx.cov["conflict_distribution"] = dist(meta2)
     ctx.known_witness("partial-quantifier-two-stores", "d3b_partial_forget.py")
     ctx.corpus(["d3_fq_forget.py"])
     ctx.cov["distribution"] = dist(meta)
@@ -230,6 +235,33 @@ def c17_engine_part(ctx):
     scs, meta = k3_batch(ctx, "c17", n, with_has_contra=True)
     run_k3(ctx, "K3/K4 propositional engine (+has_contradiction)", scs, ["c17_engine"])
     ctx.cov["engine_distribution"] = dist(meta)
+    # leaves and negations with their own alpha (given to Not both ways: keyword and activation dictionary),
+    # crossed data inside and outside the classical regions written on them, has_contradiction after each
+    scs3, meta3 = k3_batch(ctx, "c17alpha", 150 if ctx.quick else 2000, with_has_contra=True)
+    rng3 = ctx.rng("c17alpha-nodes")
+    for sc in scs3:
+        kb = sc[1]
+        owned = {j for o in kb if o[0] in (5, 6) for j in list(o[1]) + list(o[3])}    # private sub-formulae of Iff / XOr
+        plain = [i for i, o in enumerate(kb) if o[0] in (0, 1) and i not in owned]
+        for i in plain:
+            kb[i][2] = [rng3.choice([F(1), F(7, 8), F(3, 4), F(3, 4)])] + list(kb[i][2][1:])
+        reg = sorted(gen_prop.reachable(kb, sc[2]) & set(plain))
+        for _ in range(rng3.choice([1, 2, 3])):
+            if not reg:
+                break
+            nots = [j for j in reg if kb[j][0] == 1]
+            i = rng3.choice(nots) if nots and rng3.random() < 0.6 else rng3.choice(reg)
+            al = kb[i][2][0]
+            c = rng3.random()
+            if c < 0.6 and al < 1:      # both bounds inside one classical region of this node (tolerated when crossed)
+                grid = [F(k, 16) for k in range(17)]
+                side = [x for x in grid if x >= al] if rng3.random() < 0.5 else [x for x in grid if x <= 1 - al]
+                u, l = sorted((rng3.choice(side), rng3.choice(side)))
+            else:
+                u, l = sorted((rng3.choice(gen_prop.G8 + [F(13, 16), F(3, 16)]), rng3.choice(gen_prop.G8 + [F(15, 16), F(1, 16)])))
+            pos = rng3.randrange(len(sc[4]) + 1)
+            sc[4][pos:pos] = [[8, i, [l, u]], [9]]
+    run_k3(ctx, "K3/K4 propositional engine, leaves and negations with alpha < 1 and crossed data", scs3, ["c17_engine"])
     scs2, meta2 = gen_prop.gen_k3_late(ctx.rng("c17late"), 150 if ctx.quick else 2000)
     run_k3(ctx, "K3 knowledge added over several add_knowledge calls (structural twins, has_contradiction between the calls)", scs2, ["c17_engine"])
     ctx.cov["late_distribution"] = dist(meta2)
